@@ -5,7 +5,8 @@
    an automaton.  `run k cap (init t0) acts = Some s` says: the action list acts is an admissible history
    (adm holds before every action: a process holds or awaits at most one request, cancel/with-exit by the
    owner and not twice, the kernel processes only triggered events, the clock advances only when no
-   triggered event of the resource is unprocessed) and leads to state s.  All theorems quantify over every
+   triggered event of the resource is unprocessed, an ended process does nothing; a process MAY end while
+   holding a slot or queueing) and leads to state s.  All theorems quantify over every
    kind, every capacity >= 1, every initial time and EVERY admissible history of any length: any number of
    processes, any priorities and preempt flags, any interleaving of operations and event processing within
    an instant. *)
@@ -69,7 +70,7 @@ Print Assumptions C06_no_idle_slot_at_advance.
 Theorem C06_release_idempotent : forall k cap t0 acts s r, 1 <= cap -> run k cap (init t0) acts = Some s ->
   ~ In r (map rid (users s)) ->
   step k cap s (ARelease r) =
-    Some (mkState (users s) (queue s) (getq s) (pending s ++ [ERel (next_id s)]) (granted s) (intrs s)
+    Some (mkState (users s) (queue s) (getq s) (pending s ++ [ERel (next_id s)]) (granted s) (intrs s) (dead s)
                   (S (next_id s)) (now s)).
 Proof. exact release_idempotent. Qed.
 Print Assumptions C06_release_idempotent.
@@ -78,30 +79,31 @@ Print Assumptions C06_release_idempotent.
 Theorem C06_release_twice : forall k cap t0 acts s r s1, 1 <= cap -> run k cap (init t0) acts = Some s ->
   step k cap s (ARelease r) = Some s1 ->
   step k cap s1 (ARelease r) =
-    Some (mkState (users s1) (queue s1) (getq s1) (pending s1 ++ [ERel (next_id s1)]) (granted s1) (intrs s1)
+    Some (mkState (users s1) (queue s1) (getq s1) (pending s1 ++ [ERel (next_id s1)]) (granted s1) (intrs s1) (dead s1)
                   (S (next_id s1)) (now s1)).
 Proof. exact release_twice. Qed.
 Print Assumptions C06_release_twice.
 
 (* One call of PreemptiveResource._do_put, exactly.  Free slot: plain grant.  Full: with w the LAST user of
    maximal key (users = l1 ++ w :: l2, nothing in l1 above w, everything in l2 strictly below w), w is
-   evicted -- removed from users, interrupt (victim w, by e) issued, i.e. w's process gets
-   Interrupt(Preempted(by = e's process, usage_since = w's usage_since, this resource)) -- and e gets the
-   slot in the same call IF AND ONLY IF e has preempt=True and w's key is strictly larger than e's; otherwise
-   nothing changes. *)
+   evicted -- removed from users, eviction (victim w, by e) recorded; if w's process is still alive it gets
+   Interrupt(Preempted(by = e's process, usage_since = w's usage_since, this resource)) (inotified) -- and e
+   gets the slot in the same call IF AND ONLY IF e has preempt=True and w's key is strictly larger than e's;
+   otherwise nothing changes.  (act = the active process; it holds nothing, so it is never the victim.) *)
 Theorem C06_preempt_call : forall cap act s e, 1 <= cap -> length (users s) <= cap -> NoDup (map rid (users s)) ->
   (forall p, act = Some p -> forall u, In u (users s) -> rproc u <> p) ->
   if length (users s) <? cap then
     do_put KPreempt cap act s e =
       Some (mkState (users s ++ [grant (now s) e]) (queue s) (getq s) (pending s ++ [EReq (rid e)])
-                    (granted s ++ [rid e]) (intrs s) (next_id s) (now s), true, true)
+                    (granted s ++ [rid e]) (intrs s) (dead s) (next_id s) (now s), true, true)
   else exists w l1 l2, users s = l1 ++ w :: l2
        /\ (forall x, In x l1 -> key_ltb (rkey w) (rkey x) = false)
        /\ (forall x, In x l2 -> key_ltb (rkey x) (rkey w) = true)
        /\ do_put KPreempt cap act s e =
             if rpre e && key_ltb (rkey e) (rkey w)
             then Some (mkState ((l1 ++ l2) ++ [grant (now s) e]) (queue s) (getq s) (pending s ++ [EReq (rid e)])
-                               (granted s ++ [rid e]) (intrs s ++ [mkIntr w e]) (next_id s) (now s), true, true)
+                               (granted s ++ [rid e]) (intrs s ++ [mkIntr w e (negb (is_dead s (rproc w)))])
+                               (dead s) (next_id s) (now s), true, true)
             else Some (s, false, false).
 Proof. exact preempt_call. Qed.
 Print Assumptions C06_preempt_call.
@@ -113,20 +115,22 @@ Theorem C06_preempt_request : forall cap t0 acts s p prio pre, 1 <= cap ->
   if length (users s) <? cap then
     step KPreempt cap s (ARequest p prio pre) =
       Some (mkState (users s ++ [grant (now s) e]) [] [] (pending s ++ [EReq (next_id s)]) (granted s ++ [next_id s])
-                    (intrs s) (S (next_id s)) (now s))
+                    (intrs s) (dead s) (S (next_id s)) (now s))
   else exists w l1 l2, users s = l1 ++ w :: l2
        /\ (forall x, In x l1 -> key_ltb (rkey w) (rkey x) = false)
        /\ (forall x, In x l2 -> key_ltb (rkey x) (rkey w) = true)
        /\ step KPreempt cap s (ARequest p prio pre) =
             if pre && key_ltb (rkey e) (rkey w)
             then Some (mkState ((l1 ++ l2) ++ [grant (now s) e]) [] [] (pending s ++ [EReq (next_id s)])
-                               (granted s ++ [next_id s]) (intrs s ++ [mkIntr w e]) (S (next_id s)) (now s))
-            else Some (mkState (users s) [e] [] (pending s) (granted s) (intrs s) (S (next_id s)) (now s)).
+                               (granted s ++ [next_id s]) (intrs s ++ [mkIntr w e (negb (is_dead s (rproc w)))])
+                               (dead s) (S (next_id s)) (now s))
+            else Some (mkState (users s) [e] [] (pending s) (granted s) (intrs s) (dead s) (S (next_id s)) (now s)).
 Proof. exact preempt_request. Qed.
 Print Assumptions C06_preempt_request.
 
-(* over every history, including evictions that happen during a rescan (event processing, cancel): the
-   evicted user's key was strictly larger than the key of the preempting request that took its slot *)
+(* over every history, including evictions that happen during a rescan (event processing, cancel) and evictions
+   of users whose process has ended: the evicted user's key was strictly larger than the key of the preempting
+   request that took its slot *)
 Theorem C06_evictions_strict : forall k cap t0 acts s i, 1 <= cap -> run k cap (init t0) acts = Some s ->
   In i (intrs s) -> key_ltb (rkey (iby i)) (rkey (ivictim i)) = true /\ rpre (iby i) = true.
 Proof. exact evictions_strict. Qed.
